@@ -1156,4 +1156,149 @@ theorem front_inf (p1 p2 p3 p4 : Bool) (x y z : U128) (m : RoundingMode) (f : UI
     rw [infW_word]
     exact congrArg (fun g => Except.ok (_, false, false, false, false, g)) (UInt32.or_zero).symm
 
+
+/-! ## 9. The special cases answered in the front: product zero and addend zero -/
+
+/-- the high word of the zero `zeroK` returns: the smaller exponent field, with the sign of the IEEE rule -/
+def zzWord (pe ze ps zs : UInt64) (m : RoundingMode) : UInt64 :=
+  if (ps == zs) = true then (if decide (pe < ze) = true then pe else ze) ||| zs
+  else if (m == RoundingMode.Downward) = true then (if decide (pe < ze) = true then pe else ze) ||| c_MASK_SIGN
+  else (if decide (pe < ze) = true then pe else ze)
+
+theorem zeroK_zero (xe ye ze : UInt64) (C1 C2 C3 : U128) (ps zs : UInt64) (m : RoundingMode) (f : UInt32)
+    (k : UInt64 → Except String Out) (h : ((isZ C1 || isZ C2) && isZ C3) = true) :
+    zeroK xe ye ze C1 C2 C3 ps zs m f k = .ok (⟨0, zzWord (pExpW xe ye) ze ps zs m⟩, false, false, false, false, f) := by
+  unfold zeroK
+  take_pos
+  · rw [← h]; unfold isZ
+    cases (C1.w1 == 0) <;> cases (C1.w0 == 0) <;> cases (C2.w1 == 0) <;> cases (C2.w0 == 0) <;> cases (C3.w1 == 0) <;>
+      cases (C3.w0 == 0) <;> rfl
+  unfold zzWord
+  by_cases hs : (ps == zs) = true
+  · take_pos
+    · exact hs
+    rw [if_pos hs]; rfl
+  · take_neg
+    · exact hs
+    rw [if_neg hs]
+    by_cases hd : (m == RoundingMode.Downward) = true
+    · take_pos
+      · exact hd
+      rw [if_pos hd]; rfl
+    · take_neg
+      · exact hd
+      rw [if_neg hd]; rfl
+
+
+theorem or_sgnW (w : UInt64) (s : Bool) (hw : w.toNat < 2^63) : (w ||| sgnW s).toNat = (if s then 2^63 else 0) + w.toNat := by
+  cases s
+  · show (w ||| 0).toNat = _
+    rw [UInt64.or_zero]; simp
+  · rw [UInt64.toNat_or, show (sgnW true).toNat = 1 * 2^63 from rfl, Nat.or_comm,
+      Dec.C06GenFromInt.or_disjoint 1 w.toNat 63 hw]
+    simp
+
+/-- a zero result word: sign bit and exponent field -/
+theorem zero_word_enc (W : UInt64) (s : Bool) (F : Nat) (hF : F < 2^14)
+    (hW : W.toNat = (if s then 2^63 else 0) + F * 2^49) : (⟨0, W⟩ : U128) = ofBits (encode (.fin s 0 ((F : Int) - 6176))) := by
+  apply Dec.C06GenFromInt.eq_ofBits
+  unfold Dec.C06GenFromInt.bitsOf
+  show W.toNat * 2^64 + (0 : UInt64).toNat = signBit s + ((F : Int) - 6176 + 6176).toNat * 2^113 + 0
+  rw [hW, show ((F : Int) - 6176 + 6176).toNat = F from by omega]
+  unfold signBit
+  cases s <;> simp <;> ring
+
+theorem modeOf_rdn (m : RoundingMode) : (m == RoundingMode.Downward) = (Dec.C02GenCorrection.modeOf m == Mode.rdn) := by
+  cases m <;> rfl
+
+set_option maxHeartbeats 1000000 in
+/-- **zero product and zero addend** (three finite operands, canonical or not): the front end answers, and the answer is
+`fmaD`: the zero with the smaller of the two exponents `e1 + e2`, `e3` (clamped into the format's range), negative iff
+both the product and the addend are negative, or their signs differ and the mode is `Downward`; no flag -/
+theorem front_zero_zero (p1 p2 p3 p4 : Bool) (x y z : U128) (m : RoundingMode) (f : UInt32)
+    {s1 s2 s3 : Bool} {c1 c2 : Nat} {e1 e2 e3 : Int}
+    (hx : dOf x = .fin s1 c1 e1) (hy : dOf y = .fin s2 c2 e2) (hz : dOf z = .fin s3 0 e3) (h12 : c1 * c2 = 0) :
+    bid128_ext_fma p1 p2 p3 p4 x y z m f =
+      .ok (ofBits (encode (fmaD (Dec.C02GenCorrection.modeOf m) false (dOf x) (dOf y) (dOf z)).1), false, false, false, false,
+        f ||| UInt32.ofNat (fmaD (Dec.C02GenCorrection.modeOf m) false (dOf x) (dOf y) (dOf z)).2) := by
+  obtain ⟨nx, sx, ex, vx, lx, rx1, rx2⟩ := fin_unpack x s1 c1 e1 hx
+  obtain ⟨ny, sy, ey, vy, ly, ry1, ry2⟩ := fin_unpack y s2 c2 e2 hy
+  obtain ⟨nz, sz, ez, vz, lz, rz1, rz2⟩ := fin_unpack z s3 0 e3 hz
+  have z3 : isZ (unpC z).2 = true := by rw [isZ_of_val, vz]; rfl
+  have z12 : (isZ (unpC x).2 || isZ (unpC y).2) = true := by
+    rw [isZ_of_val, isZ_of_val, vx, vy]
+    rcases Nat.mul_eq_zero.1 h12 with h | h <;> simp [h]
+  -- the model
+  have hmodel : fmaD (Dec.C02GenCorrection.modeOf m) false (dOf x) (dOf y) (dOf z) =
+      (zeroAt (zeroSumSign (Dec.C02GenCorrection.modeOf m) (s1 != s2) s3) (if e1 + e2 ≤ e3 then e1 + e2 else e3), 0) := by
+    rw [hx, hy, hz]
+    show addFin _ (s1 != s2) (c1 * c2) (e1 + e2) s3 0 e3 _ false = _
+    rw [h12]
+    unfold addFin sInt
+    simp
+  rw [hmodel, ext_fma_shape]
+  unfold frontK
+  rw [nanK_skip x y z f _ (by rw [hx]; rfl) (by rw [hy]; rfl) (by rw [hz]; rfl),
+    unpackK_eval x, unpackK_eval y, unpackK_eval z, if_pos nx, if_pos nx, if_pos ny, if_pos ny, if_pos nz, if_pos nz,
+    infK_skip x y z _ _ _ _ _ f _ nx ny nz, zeroK_zero _ _ _ _ _ _ _ _ m f _ (by rw [z12, z3]; rfl)]
+  rw [show f ||| UInt32.ofNat (0 : Flags) = f from UInt32.or_zero]
+  refine congrArg (fun p : U128 => Except.ok (p, false, false, false, false, f)) ?_
+  show (⟨0, zzWord _ _ _ _ m⟩ : U128) = _
+  -- the word
+  have hpe := pExpW_val (unpC x).1 (unpC y).1 _ _ ex ey (by omega) (by omega)
+  obtain ⟨PE, hPE⟩ : ∃ PE : Nat, PE = (max (e1 + e2 + 6176) 0).toNat := ⟨_, rfl⟩
+  have hpe' : (pExpW (unpC x).1 (unpC y).1).toNat = PE * 2^49 := by
+    rw [hpe]
+    by_cases hneg : ((e1 + 6176).toNat : Int) + (e2 + 6176).toNat - 12352 < -6176
+    · rw [if_pos hneg]; have : PE = 0 := by omega
+      rw [this, Nat.zero_mul]
+    · rw [if_neg hneg]; have : (e1 + 6176).toNat + (e2 + 6176).toNat - 6176 = PE := by omega
+      rw [this]
+  obtain ⟨F, hF⟩ : ∃ F : Nat, F = min PE (e3 + 6176).toNat := ⟨_, rfl⟩
+  have hmin : (if decide (pExpW (unpC x).1 (unpC y).1 < (unpC z).1) = true then pExpW (unpC x).1 (unpC y).1
+      else (unpC z).1).toNat = F * 2^49 := by
+    by_cases hlt : pExpW (unpC x).1 (unpC y).1 < (unpC z).1
+    · rw [if_pos (by simpa using hlt), hpe']
+      rw [UInt64.lt_iff_toNat_lt, hpe', ez] at hlt
+      have : PE < (e3 + 6176).toNat := by
+        by_contra hge
+        have : (e3 + 6176).toNat * 2^49 ≤ PE * 2^49 := Nat.mul_le_mul_right _ (by omega)
+        omega
+      have : F = PE := by omega
+      rw [this]
+    · rw [if_neg (by simpa using hlt), ez]
+      rw [UInt64.lt_iff_toNat_lt, hpe', ez] at hlt
+      have : (e3 + 6176).toNat ≤ PE := by
+        by_contra hge
+        have : (PE + 1) * 2^49 ≤ (e3 + 6176).toNat * 2^49 := Nat.mul_le_mul_right _ (by omega)
+        rw [Nat.add_mul] at this
+        omega
+      have : F = (e3 + 6176).toNat := by omega
+      rw [this]
+  have hF14 : F < 2^14 := by omega
+  have hFlt : F * 2^49 < 2^63 := by
+    calc F * 2^49 < 2^14 * 2^49 := Nat.mul_lt_mul_of_pos_right hF14 (by decide)
+      _ = 2^63 := by norm_num
+  have hexp : zeroAt (zeroSumSign (Dec.C02GenCorrection.modeOf m) (s1 != s2) s3) (if e1 + e2 ≤ e3 then e1 + e2 else e3)
+      = .fin (zeroSumSign (Dec.C02GenCorrection.modeOf m) (s1 != s2) s3) 0 ((F : Int) - 6176) := by
+    unfold zeroAt clampInt eMin eMax
+    congr 1
+    split <;> split <;> (try split) <;> omega
+  rw [hexp]
+  apply zero_word_enc _ _ _ hF14
+  unfold zzWord zeroSumSign
+  rw [sx, sy, sz, sgnW_xor, sgnW_beq, modeOf_rdn]
+  generalize hmn : (if decide (pExpW (unpC x).1 (unpC y).1 < (unpC z).1) = true then pExpW (unpC x).1 (unpC y).1
+      else (unpC z).1) = mn at hmin
+  by_cases hs : ((s1 != s2) == s3) = true
+  · rw [if_pos hs, if_pos hs, or_sgnW _ _ (by rw [hmin]; exact hFlt), hmin]
+    have : s3 = (s1 != s2) := (beq_iff_eq.1 hs).symm
+    rw [this]
+  · rw [if_neg hs, if_neg hs]
+    by_cases hd : (Dec.C02GenCorrection.modeOf m == Mode.rdn) = true
+    · rw [if_pos hd, hd, show c_MASK_SIGN = sgnW true from rfl, or_sgnW _ _ (by rw [hmin]; exact hFlt), hmin]
+    · rw [if_neg hd]
+      have : (Dec.C02GenCorrection.modeOf m == Mode.rdn) = false := by simpa using hd
+      rw [this, hmin]; simp
+
 end Dec.C02GenFmaFrontSpec
